@@ -10,6 +10,11 @@
 package main
 
 import (
+	"errors"
+	"fmt"
+	"os"
+	"path/filepath"
+	"sort"
 	"strconv"
 	"strings"
 	"testing"
@@ -356,5 +361,805 @@ func c28CodecGen(r *vh.Rand, tier string, n int) []c28CodecIn {
 }
 
 func TestVerifC28Codec(t *testing.T) { vh.Run(c28CodecGen, c28CodecExec) }
+
+// ---------------------------------------------------------------- changes driver
+
+// A history: a simulated pre-existing tree and a sequence of desired profiles. Mount points written "@/x/y" are
+// placed under the per-case scratch root. Case K of a history replays steps 0..K through the real
+// executeMountProfileUpdate (in-memory profiles, simulated Change.Perform) and reports step K.
+// Direct != nil: a single neededChanges call on an arbitrary current profile instead.
+type c28Hist struct {
+	Dirs    []string   `json:"dirs"`
+	Files   []string   `json:"files"`
+	Links   []string   `json:"links"`
+	Steps   [][]c28Ent `json:"steps"`
+	K       int        `json:"k"`
+	Current []c28Ent   `json:"current,omitempty"`
+	Direct  bool       `json:"direct,omitempty"`
+}
+
+func c28Place(root string, dir []byte) string {
+	d := string(dir)
+	if strings.HasPrefix(d, "@") {
+		return root + d[1:]
+	}
+	return d
+}
+
+func c28Entries(root string, es []c28Ent) []osutil.MountEntry {
+	out := make([]osutil.MountEntry, 0, len(es))
+	for _, e := range es {
+		me := e.entry()
+		me.Dir = c28Place(root, e.Dir)
+		for i, o := range me.Options { // needed-by / id values may name a mount point under the root
+			if j := strings.Index(o, "=@"); j >= 0 {
+				me.Options[i] = o[:j+1] + root + o[j+2:]
+			}
+		}
+		out = append(out, me)
+	}
+	return out
+}
+
+// in-memory MountProfileUpdateContext
+type c28Ctx struct {
+	desired, current *osutil.MountProfile
+	saved            *osutil.MountProfile
+}
+
+func (c *c28Ctx) Lock() (func(), error)                             { return func() {}, nil }
+func (c *c28Ctx) Assumptions() *Assumptions                         { return &Assumptions{} }
+func (c *c28Ctx) LoadDesiredProfile() (*osutil.MountProfile, error) { return c.desired, nil }
+func (c *c28Ctx) LoadCurrentProfile() (*osutil.MountProfile, error) { return c.current, nil }
+func (c *c28Ctx) SaveCurrentProfile(p *osutil.MountProfile) error {
+	c.saved = &osutil.MountProfile{Entries: append([]osutil.MountEntry(nil), p.Entries...)}
+	return nil
+}
+
+// simulated Change.Perform: every directory of the pre-existing tree counts as read-only, so a missing mount target
+// needs a writable mimic at the first existing directory above it (built with the real createWritableMimic, whose
+// own nested changes are no-ops here); what is created inside a mimic disappears when the mimic is unmounted.
+type c28Sim struct {
+	writable map[string]bool
+	created  map[string][]string
+	nested   bool
+	made     []*Change
+}
+
+func c28ExistsAs(e *osutil.MountEntry) bool {
+	switch e.XSnapdKind() {
+	case "", "ensure-dir":
+		return osutil.IsDirectory(e.Dir)
+	case "file":
+		return osutil.FileExists(e.Dir)
+	case "symlink":
+		return osutil.IsSymlink(e.Dir)
+	}
+	return true
+}
+
+func (s *c28Sim) perform(c *Change, as *Assumptions) ([]*Change, error) {
+	if s.nested {
+		return nil, nil
+	}
+	switch c.Action {
+	case Keep:
+		return nil, nil
+	case Unmount:
+		if c.Entry.Type == "tmpfs" && c.Entry.XSnapdSynthetic() {
+			for _, p := range s.created[c.Entry.Dir] {
+				os.RemoveAll(p)
+			}
+			delete(s.created, c.Entry.Dir)
+			delete(s.writable, c.Entry.Dir)
+		}
+		return nil, nil
+	}
+	if c28ExistsAs(&c.Entry) {
+		return nil, nil
+	}
+	if _, err := os.Lstat(c.Entry.Dir); err == nil {
+		return nil, errors.New("sim: mount point exists in the wrong form")
+	}
+	kind := c.Entry.XSnapdKind()
+	parent := filepath.Dir(c.Entry.Dir)
+	if !filepath.IsAbs(parent) {
+		return nil, errors.New("sim: relative mount point")
+	}
+	r := findFirstRootDirectoryThatExists(parent)
+	var synth []*Change
+	if !s.writable[r] && kind != "ensure-dir" {
+		if c.Entry.XSnapdIgnoreMissing() {
+			return nil, ErrIgnoredMissingMount
+		}
+		s.nested = true
+		var err error
+		synth, err = createWritableMimic(r, c.Entry.XSnapdEntryID(), as)
+		s.nested = false
+		if err != nil {
+			return nil, err
+		}
+		s.writable[r] = true
+	}
+	// create the missing path below r; remember its top-most new element
+	rel, _ := filepath.Rel(r, c.Entry.Dir)
+	top := filepath.Join(r, strings.Split(rel, "/")[0])
+	if err := os.MkdirAll(parent, 0755); err != nil {
+		return synth, err
+	}
+	var err error
+	switch kind {
+	case "", "ensure-dir":
+		err = os.Mkdir(c.Entry.Dir, 0755)
+	case "file":
+		err = os.WriteFile(c.Entry.Dir, nil, 0644)
+	case "symlink":
+		err = os.Symlink("x", c.Entry.Dir)
+	}
+	if kind != "ensure-dir" {
+		s.created[r] = append(s.created[r], top)
+	}
+	return synth, err
+}
+
+type c28Observed struct {
+	dirs, exists, links []string
+	current, desired    []osutil.MountEntry
+	changes             []*Change
+	unstable            bool
+}
+
+// what the file system says about every path neededChanges may ask about: the cleaned desired mount points and all
+// their ancestors
+func c28Oracle(desired []osutil.MountEntry) (dirs, exists, links []string) {
+	seen := map[string]bool{}
+	for _, e := range desired {
+		p := filepath.Clean(e.Dir)
+		for !seen[p] {
+			seen[p] = true
+			if osutil.IsDirectory(p) {
+				dirs = append(dirs, p)
+			}
+			if osutil.FileExists(p) && !osutil.IsDirectory(p) { // directories are implied (both are os.Stat)
+				exists = append(exists, p)
+			}
+			if osutil.IsSymlink(p) {
+				links = append(links, p)
+			}
+			p = filepath.Dir(p)
+		}
+	}
+	sort.Strings(dirs)
+	sort.Strings(exists)
+	sort.Strings(links)
+	return
+}
+
+func c28Unstable(current []osutil.MountEntry) bool {
+	if len(current) <= 12 {
+		return false
+	}
+	cur := append([]osutil.MountEntry(nil), current...)
+	for i := range cur {
+		cur[i].Dir = filepath.Clean(cur[i].Dir)
+	}
+	s := byOvernameAndMountPoint(cur)
+	for i := range cur {
+		for j := i + 1; j < len(cur); j++ {
+			if !s.Less(i, j) && !s.Less(j, i) {
+				return true
+			}
+		}
+	}
+	return false
+}
+
+// c28Intern shares repeated strings and entries inside one Coq case term through let-bindings: elaborating the
+// string literals is what costs time on the Coq side, and a step repeats the same paths and entries many times.
+type c28Intern struct {
+	root string
+	strs map[string]string
+	ents map[string]string
+	defs []string
+}
+
+func newC28Intern(root string) *c28Intern { return &c28Intern{root: root, strs: map[string]string{}, ents: map[string]string{}} }
+
+func (in *c28Intern) str(s string) string {
+	if n, ok := in.strs[s]; ok {
+		return n
+	}
+	// factor the (long) scratch root out of paths and option values
+	var def string
+	if in.root != "" && s != in.root {
+		if i := strings.Index(s, in.root); i >= 0 {
+			parts := []string{}
+			if i > 0 {
+				parts = append(parts, in.str(s[:i]))
+			}
+			parts = append(parts, in.str(in.root))
+			if rest := s[i+len(in.root):]; rest != "" {
+				parts = append(parts, in.str(rest))
+			}
+			def = "(" + strings.Join(parts, " ++ ") + ")"
+		}
+	}
+	if def == "" {
+		def = vh.CoqBytes(s)
+	}
+	n := "s" + strconv.Itoa(len(in.strs))
+	in.strs[s] = n
+	in.defs = append(in.defs, "let "+n+" := "+def+" in ")
+	return n
+}
+
+func (in *c28Intern) strList(l []string) string {
+	items := make([]string, len(l))
+	for i, s := range l {
+		items[i] = in.str(s)
+	}
+	return vh.CoqList(items)
+}
+
+func (in *c28Intern) entry(e osutil.MountEntry) string {
+	key := fmt.Sprintf("%q %q %q %q %d %d", e.Name, e.Dir, e.Type, e.Options, e.DumpFrequency, e.CheckPassNumber)
+	if n, ok := in.ents[key]; ok {
+		return n
+	}
+	def := "(mkEntry " + in.str(e.Name) + " " + in.str(e.Dir) + " " + in.str(e.Type) + " " + in.strList(e.Options) + " " +
+		vh.CoqZ(int64(e.DumpFrequency)) + " " + vh.CoqZ(int64(e.CheckPassNumber)) + ")"
+	n := "e" + strconv.Itoa(len(in.ents))
+	in.ents[key] = n
+	in.defs = append(in.defs, "let "+n+" := "+def+" in ")
+	return n
+}
+
+func (in *c28Intern) entries(es []osutil.MountEntry) string {
+	items := make([]string, len(es))
+	for i, e := range es {
+		items[i] = in.entry(e)
+	}
+	return vh.CoqList(items)
+}
+
+func (in *c28Intern) changes(chs []*Change) string {
+	items := make([]string, len(chs))
+	for i, c := range chs {
+		a := "Keep"
+		switch c.Action {
+		case Mount:
+			a = "Mount"
+		case Unmount:
+			a = "Unmount"
+		}
+		items[i] = "(" + a + ", " + in.entry(c.Entry) + ")"
+	}
+	return vh.CoqList(items)
+}
+
+func (in *c28Intern) wrap(body string) string { return "(" + strings.Join(in.defs, "") + body + ")" }
+
+var c28Seq int
+
+func c28ChangesExec(h c28Hist) vh.Out {
+	base := os.Getenv("VERIF_SCRATCH_DIR")
+	if base == "" {
+		base = os.TempDir()
+	}
+	c28Seq++
+	root := filepath.Join(base, fmt.Sprintf("t%d", c28Seq))
+	if err := os.MkdirAll(root, 0755); err != nil {
+		panic(err)
+	}
+	defer os.RemoveAll(root)
+	for _, d := range h.Dirs {
+		os.MkdirAll(filepath.Join(root, d), 0755)
+	}
+	for _, f := range h.Files {
+		os.MkdirAll(filepath.Dir(filepath.Join(root, f)), 0755)
+		os.WriteFile(filepath.Join(root, f), []byte("x"), 0644)
+	}
+	for _, l := range h.Links {
+		os.MkdirAll(filepath.Dir(filepath.Join(root, l)), 0755)
+		os.Symlink("x", filepath.Join(root, l))
+	}
+
+	var obs *c28Observed
+	oldNC, oldCP := NeededChanges, changePerform
+	defer func() { NeededChanges, changePerform = oldNC, oldCP }()
+	NeededChanges = func(cur, des *osutil.MountProfile) []*Change {
+		o := &c28Observed{current: append([]osutil.MountEntry(nil), cur.Entries...), desired: append([]osutil.MountEntry(nil), des.Entries...)}
+		o.dirs, o.exists, o.links = c28Oracle(des.Entries)
+		o.unstable = c28Unstable(cur.Entries)
+		o.changes = neededChanges(cur, des)
+		obs = o
+		return o.changes
+	}
+
+	ages := map[string]uint64{}
+	var nextAge uint64
+	var made []*Change
+	var saved []osutil.MountEntry
+	aborted := false
+	if h.Direct {
+		cur := &osutil.MountProfile{Entries: c28Entries(root, h.Current)}
+		for _, e := range cur.Entries {
+			if _, ok := ages[e.String()]; !ok {
+				ages[e.String()] = nextAge
+			}
+			nextAge++
+		}
+		des := &osutil.MountProfile{Entries: c28Entries(root, h.Steps[0])}
+		made = NeededChanges(cur, des)
+		for _, c := range made {
+			if c.Action != Unmount {
+				saved = append(saved, c.Entry)
+			}
+		}
+	} else {
+		sim := &c28Sim{writable: map[string]bool{}, created: map[string][]string{}}
+		current := &osutil.MountProfile{}
+		for k := 0; k <= h.K && k < len(h.Steps); k++ {
+			ctx := &c28Ctx{desired: &osutil.MountProfile{Entries: c28Entries(root, h.Steps[k])}, current: current}
+			made = nil
+			changePerform = func(c *Change, as *Assumptions) ([]*Change, error) {
+				synth, err := sim.perform(c, as)
+				if !sim.nested {
+					made = append(made, synth...)
+					if err == nil {
+						made = append(made, c)
+					}
+				}
+				return synth, err
+			}
+			obs = nil
+			err := executeMountProfileUpdate(ctx)
+			aborted = err != nil || ctx.saved == nil
+			if k == h.K || k == len(h.Steps)-1 {
+				if ctx.saved != nil {
+					saved = ctx.saved.Entries
+				}
+				break
+			}
+			if ctx.saved != nil {
+				// ages of the entries of the new current profile: kept ones keep theirs, new ones in mount order
+				newAges := map[string]uint64{}
+				for _, e := range ctx.saved.Entries {
+					if a, ok := ages[e.String()]; ok {
+						newAges[e.String()] = a
+					} else {
+						newAges[e.String()] = nextAge
+						nextAge++
+					}
+				}
+				ages = newAges
+				current = ctx.saved
+			}
+		}
+	}
+	if obs == nil {
+		panic("neededChanges was not reached")
+	}
+	ageItems := make([]string, len(obs.current))
+	for i, e := range obs.current {
+		ageItems[i] = vh.CoqN(ages[e.String()])
+	}
+	if aborted || (!h.Direct && c28Seq%3 != 0) {
+		// aborted: the update stopped at a failing layout/overname change, nothing was saved, the recording obligation
+		// is void. Otherwise the recording is reported for every third case only (it repeats the change list).
+		made, saved = nil, nil
+	}
+	if c28OrderMode {
+		return c28OrderOut(root, obs, ages)
+	}
+	it := newC28Intern(root)
+	coq := it.wrap("CStep (mkFs " + it.strList(obs.dirs) + " " + it.strList(obs.exists) + " " + it.strList(obs.links) + ") " +
+		it.entries(obs.current) + " " + vh.CoqList(ageItems) + " " + it.entries(obs.desired) + " " + vh.CoqBool(obs.unstable) + " " +
+		it.changes(obs.changes) + " " + it.changes(made) + " " + it.entries(saved))
+
+	nk, nm, nu, nsyn := 0, 0, 0, 0
+	chs := make([]string, len(obs.changes))
+	for i, c := range obs.changes {
+		chs[i] = c.String()
+		switch c.Action {
+		case Keep:
+			nk++
+		case Mount:
+			nm++
+		case Unmount:
+			nu++
+		}
+	}
+	for _, e := range obs.current {
+		if e.XSnapdSynthetic() {
+			nsyn++
+		}
+	}
+	tags := []string{}
+	if h.Direct {
+		tags = append(tags, "direct")
+	} else {
+		tags = append(tags, fmt.Sprintf("history-step-%d", h.K))
+	}
+	if nk > 0 {
+		tags = append(tags, "has-keep")
+	}
+	if nu > 0 {
+		tags = append(tags, "has-unmount")
+	}
+	if nm > 0 {
+		tags = append(tags, "has-mount")
+	}
+	if nsyn > 0 {
+		tags = append(tags, "current-has-synthetic")
+	}
+	if obs.unstable {
+		tags = append(tags, "sort-ties-over-12")
+	}
+	if aborted {
+		tags = append(tags, "update-aborted")
+	}
+	if len(obs.changes) == 0 {
+		tags = append(tags, "no-changes")
+	}
+	cur := make([]string, len(obs.current))
+	for i, e := range obs.current {
+		cur[i] = e.String()
+	}
+	des := make([]string, len(obs.desired))
+	for i, e := range obs.desired {
+		des[i] = e.String()
+	}
+	return vh.Out{Observed: map[string]interface{}{"root": root, "current": cur, "desired": des, "changes": chs, "dirs": obs.dirs},
+		Coq: coq, NonTrivial: nk+nu > 0 && nm > 0, Tags: tags}
+}
+
+// ---- generation
+
+var c28Names = []string{"a", "b", "c", "d"}
+
+func c28RelPath(r *vh.Rand, maxDepth int) string {
+	n := r.Range(1, maxDepth)
+	parts := make([]string, n)
+	for i := range parts {
+		parts[i] = c28Names[r.Intn(len(c28Names))]
+		if r.Chance(1, 12) {
+			parts[i] += r.Pick([]string{"b", "-x", ".d", "a"})
+		}
+	}
+	return strings.Join(parts, "/")
+}
+
+func c28Unclean(r *vh.Rand, p string) string {
+	switch r.Intn(14) {
+	case 0:
+		return p + "/"
+	case 1:
+		return strings.Replace(p, "/", "//", 1)
+	case 2:
+		return p + "/."
+	case 3:
+		return p + "/zz/.."
+	case 4:
+		return strings.Replace(p, "/", "/./", 1)
+	}
+	return p
+}
+
+func c28DesiredEntry(r *vh.Rand, rel string) c28Ent {
+	b := func(s string) []byte { return []byte(s) }
+	e := c28Ent{Dir: b("@/" + c28Unclean(r, rel)), Name: b("/s/" + r.Str("abc", 1, 3)), Type: b("none")}
+	var opts []string
+	switch r.Intn(8) {
+	case 0:
+		e.Type, e.Name = b("tmpfs"), b("tmpfs")
+		opts = append(opts, "mode=0755")
+	case 1:
+		e.Type = b("squashfs")
+		opts = append(opts, "ro")
+	case 2, 3:
+		opts = append(opts, "rbind", "rw")
+	default:
+		opts = append(opts, "bind", r.Pick([]string{"ro", "rw"}))
+	}
+	switch r.Intn(10) {
+	case 0:
+		opts = append(opts, "x-snapd.kind=file")
+	case 1:
+		e.Type, e.Name = b("none"), b("unused")
+		opts = []string{"x-snapd.kind=symlink", "x-snapd.symlink=/oldname"}
+	case 2:
+		e.Type, e.Name = b("none"), b("none")
+		opts = []string{"x-snapd.kind=ensure-dir", "x-snapd.must-exist-dir=@"}
+	}
+	switch r.Intn(6) {
+	case 0, 1:
+		opts = append(opts, "x-snapd.origin=layout")
+	case 2:
+		opts = append(opts, "x-snapd.origin=overname")
+	case 3:
+		if r.Chance(1, 4) {
+			opts = append(opts, "x-snapd.origin="+r.Pick([]string{"rootfs", "other", ""}))
+		}
+	}
+	if r.Chance(1, 12) {
+		opts = append(opts, "x-snapd.id="+r.Pick([]string{"id1", "id2", "@/a"}))
+	}
+	if r.Chance(1, 15) {
+		opts = append(opts, "x-snapd.ignore-missing")
+	}
+	if r.Chance(1, 20) {
+		opts = append(opts, "x-snapd.detach")
+	}
+	for _, o := range opts {
+		e.Opts = append(e.Opts, b(o))
+	}
+	return e
+}
+
+func c28CleanKey(e c28Ent) string { return filepath.Clean(string(e.Dir)) }
+
+// a desired profile with pairwise different cleaned mount points
+func c28Profile(r *vh.Rand, n int, pool []string) []c28Ent {
+	var out []c28Ent
+	seen := map[string]bool{}
+	for tries := 0; len(out) < n && tries < 4*n+4; tries++ {
+		var rel string
+		if len(pool) > 0 && r.Chance(2, 3) {
+			rel = pool[r.Intn(len(pool))]
+			if r.Chance(1, 2) {
+				rel += "/" + c28Names[r.Intn(len(c28Names))]
+			}
+		} else {
+			rel = c28RelPath(r, 4)
+		}
+		e := c28DesiredEntry(r, rel)
+		if seen[c28CleanKey(e)] {
+			continue
+		}
+		seen[c28CleanKey(e)] = true
+		out = append(out, e)
+	}
+	return out
+}
+
+func c28Mutate(r *vh.Rand, prev []c28Ent, pool []string) []c28Ent {
+	switch r.Intn(8) {
+	case 0:
+		return append([]c28Ent(nil), prev...) // unchanged: everything kept
+	case 1:
+		return nil // everything goes away
+	case 2: // same entries in another order
+		out := make([]c28Ent, len(prev))
+		for i, j := range r.Perm(len(prev)) {
+			out[i] = prev[j]
+		}
+		return out
+	}
+	var out []c28Ent
+	seen := map[string]bool{}
+	for _, e := range prev {
+		switch r.Intn(6) {
+		case 0: // dropped
+			continue
+		case 1: // changed
+			e = c28DesiredEntry(r, strings.TrimPrefix(filepath.Clean(string(e.Dir)), "@/"))
+		}
+		if !seen[c28CleanKey(e)] {
+			seen[c28CleanKey(e)] = true
+			out = append(out, e)
+		}
+	}
+	for _, e := range c28Profile(r, r.Range(0, 3), pool) {
+		if !seen[c28CleanKey(e)] {
+			seen[c28CleanKey(e)] = true
+			out = append(out, e)
+		}
+	}
+	return out
+}
+
+func c28Tree(r *vh.Rand) (dirs, files, links []string) {
+	for i, n := 0, r.Range(0, 6); i < n; i++ {
+		dirs = append(dirs, c28RelPath(r, 3))
+	}
+	for i, n := 0, r.Range(0, 2); i < n; i++ {
+		files = append(files, c28RelPath(r, 3)+"/f")
+	}
+	for i, n := 0, r.Range(0, 2); i < n; i++ {
+		links = append(links, c28RelPath(r, 3)+"/l")
+	}
+	return
+}
+
+// an arbitrary current profile for direct cases: duplicates, synthetic entries, rootfs, ids
+func c28WildCurrent(r *vh.Rand, desired []c28Ent, pool []string) []c28Ent {
+	b := func(s string) []byte { return []byte(s) }
+	var out []c28Ent
+	n := r.Range(0, 7)
+	if r.Chance(1, 10) {
+		n = r.Range(13, 18)
+	}
+	for i := 0; i < n; i++ {
+		switch r.Intn(6) {
+		case 0, 1:
+			if len(desired) > 0 { // an entry that is (nearly) desired
+				e := desired[r.Intn(len(desired))]
+				if r.Chance(1, 3) {
+					e.Opts = append(append([][]byte(nil), e.Opts...), b("noatime"))
+				}
+				if r.Chance(1, 6) {
+					e.Type = b("tmpfs")
+				}
+				out = append(out, e)
+				continue
+			}
+			fallthrough
+		case 2: // synthetic helper
+			dir := "@/" + c28RelPath(r, 3)
+			nb := "@/" + c28RelPath(r, 3)
+			if len(desired) > 0 && r.Chance(2, 3) {
+				d := desired[r.Intn(len(desired))]
+				nb = filepath.Clean(string(d.Dir))
+				if r.Chance(1, 2) {
+					dir = filepath.Dir(nb)
+					if r.Bool() {
+						dir += "/" + c28Names[r.Intn(4)]
+					}
+				}
+			}
+			e := c28Ent{Name: b("tmpfs"), Dir: b(dir), Type: b("tmpfs"), Opts: [][]byte{b("x-snapd.synthetic"), b("x-snapd.needed-by=" + nb), b("mode=0755")}}
+			if r.Bool() {
+				e = c28Ent{Name: b(dir), Dir: b(dir), Type: b(""), Opts: [][]byte{b("rbind"), b("x-snapd.synthetic"), b("x-snapd.needed-by=" + nb), b("x-snapd.detach")}}
+			}
+			out = append(out, e)
+		case 3:
+			out = append(out, c28Ent{Name: b("/dev/sda"), Dir: b(r.Pick([]string{"/", "@", "@/a"})), Type: b("ext4"), Opts: [][]byte{b("x-snapd.origin=rootfs")}})
+		default:
+			rel := c28RelPath(r, 4)
+			if len(pool) > 0 && r.Bool() {
+				rel = pool[r.Intn(len(pool))]
+			}
+			out = append(out, c28DesiredEntry(r, rel))
+		}
+	}
+	return out
+}
+
+func c28ChangesGen(r *vh.Rand, tier string, n int) []c28Hist {
+	if n == 0 {
+		n = 300
+	}
+	var ins []c28Hist
+	b := func(s string) []byte { return []byte(s) }
+	bind := func(dir string, extra ...string) c28Ent {
+		e := c28Ent{Name: b("/s/src"), Dir: b(dir), Type: b("none"), Opts: [][]byte{b("bind"), b("rw")}}
+		for _, x := range extra {
+			e.Opts = append(e.Opts, b(x))
+		}
+		return e
+	}
+	// fixed histories: parent and child mounted, kept, then removed; layouts needing nested mimics; overname
+	fixed := []c28Hist{
+		{Dirs: []string{"a/b"}, Steps: [][]c28Ent{{bind("@/a"), bind("@/a/b")}, {bind("@/a"), bind("@/a/b")}, {}}},
+		{Dirs: []string{"a"}, Steps: [][]c28Ent{{bind("@/a/b/c", "x-snapd.origin=layout"), bind("@/a/d", "x-snapd.origin=layout")},
+			{bind("@/a/b/c", "x-snapd.origin=layout")}, {bind("@/a/b/c", "x-snapd.origin=layout"), bind("@/a/b/c/d", "x-snapd.origin=layout")}, {}}},
+		{Dirs: []string{"a/b", "c"}, Steps: [][]c28Ent{{bind("@/c/x", "x-snapd.origin=overname"), bind("@/a/b"), bind("@/a", "x-snapd.origin=layout")},
+			{bind("@/a/b"), bind("@/a", "x-snapd.origin=layout", "ro")}, {}}},
+		{Dirs: []string{"a"}, Files: []string{"a/f"}, Links: []string{"a/l"}, Steps: [][]c28Ent{
+			{bind("@/a/f", "x-snapd.kind=file"), bind("@/a/g", "x-snapd.kind=file"), {Name: b("unused"), Dir: b("@/a/s"), Type: b("none"), Opts: [][]byte{b("x-snapd.kind=symlink"), b("x-snapd.symlink=/x")}}},
+			{bind("@/a/g", "x-snapd.kind=file")}}},
+	}
+	for _, h := range fixed {
+		for k := range h.Steps {
+			hh := h
+			hh.K = k
+			ins = append(ins, hh)
+		}
+	}
+	for len(ins) < n {
+		dirs, files, links := c28Tree(r)
+		pool := append([]string(nil), dirs...)
+		if r.Chance(1, 3) { // direct
+			des := c28Profile(r, r.Range(0, 6), pool)
+			ins = append(ins, c28Hist{Dirs: dirs, Files: files, Links: links, Steps: [][]c28Ent{des}, Direct: true, Current: c28WildCurrent(r, des, pool)})
+			continue
+		}
+		h := c28Hist{Dirs: dirs, Files: files, Links: links}
+		steps := r.Range(2, 5)
+		prev := c28Profile(r, r.Range(1, 5), pool)
+		h.Steps = append(h.Steps, prev)
+		for i := 1; i < steps; i++ {
+			prev = c28Mutate(r, prev, pool)
+			h.Steps = append(h.Steps, prev)
+		}
+		for k := range h.Steps {
+			hh := h
+			hh.K = k
+			ins = append(ins, hh)
+		}
+	}
+	return ins
+}
+
+func TestVerifC28Changes(t *testing.T) { vh.Run(c28ChangesGen, c28ChangesExec) }
+
+// ---------------------------------------------------------------- unmount order over histories
+
+var c28OrderMode bool
+
+// the same histories, reduced to (mount point, true mount age) of the current entries and the positions of the
+// unmounted ones in the order of the Unmount changes -> V.models.MountNS.ocase
+func c28OrderOut(root string, obs *c28Observed, ages map[string]uint64) vh.Out {
+	cur := append([]osutil.MountEntry(nil), obs.current...)
+	for i := range cur {
+		cur[i].Dir = filepath.Clean(cur[i].Dir)
+	}
+	used := make([]bool, len(cur))
+	var idx []string
+	var idxN []int
+	for _, c := range obs.changes {
+		if c.Action != Unmount {
+			continue
+		}
+		found := -1
+		for i := range cur {
+			if used[i] {
+				continue
+			}
+			e := cur[i]
+			if e.Equal(&c.Entry) {
+				found = i
+				break
+			}
+			e.Options = append(append([]string(nil), e.Options...), osutil.XSnapdDetach())
+			if e.Equal(&c.Entry) {
+				found = i
+				break
+			}
+		}
+		if found < 0 {
+			found = len(cur) // refers to nothing: the monitor rejects it
+		} else {
+			used[found] = true
+		}
+		idx = append(idx, vh.CoqNat(found))
+		idxN = append(idxN, found)
+	}
+	it := newC28Intern(root)
+	items := make([]string, len(cur))
+	inOrder := true
+	for i, e := range cur {
+		items[i] = "(" + it.str(e.Dir) + ", " + vh.CoqN(ages[obs.current[i].String()]) + ")"
+		if i > 0 && ages[obs.current[i].String()] < ages[obs.current[i-1].String()] {
+			inOrder = false
+		}
+	}
+	coq := it.wrap("COrder " + vh.CoqList(items) + " " + vh.CoqList(idx))
+	tags := []string{"current-in-mount-order"}
+	if !inOrder {
+		tags = []string{"current-not-in-mount-order"}
+	}
+	dirs := make([]string, len(cur))
+	for i, e := range cur {
+		dirs[i] = strings.TrimPrefix(e.Dir, root)
+	}
+	return vh.Out{Observed: map[string]interface{}{"current_dirs": dirs, "unmounted_positions": idxN, "current_in_mount_order": inOrder},
+		Coq: coq, NonTrivial: len(idxN) > 1, Tags: tags}
+}
+
+func TestVerifC28Order(t *testing.T) {
+	c28OrderMode = true
+	defer func() { c28OrderMode = false }()
+	vh.Run(func(r *vh.Rand, tier string, n int) []c28Hist {
+		var out []c28Hist
+		for _, h := range c28ChangesGen(r, tier, 3*n) {
+			if !h.Direct && h.K > 0 {
+				out = append(out, h)
+			}
+		}
+		return out
+	}, c28ChangesExec)
+}
 
 var _ = strconv.Itoa
